@@ -61,6 +61,7 @@ pub fn hostile_bytes(tier: Tier) -> BS<Vec<u8>> {
         2 => (proptest::collection::vec(any::<u8>(), 1..60)).prop_map(|mut v| { v.insert(0, 0x6a); v }),
         1 => gen::t_multisig(),
         1 => gen::any_script(tier),
+        1 => gen::well_known_script(),
     ].boxed()
 }
 
